@@ -13,6 +13,7 @@ import (
 	"testing"
 
 	"github.com/freeconf/yang/meta"
+	"github.com/freeconf/yang/node"
 	"github.com/freeconf/yang/parser"
 	"github.com/freeconf/yang/source"
 	"pgregory.net/rapid"
@@ -244,6 +245,33 @@ func runLoad(c c14Case, o *hx.Obs) {
 	for _, p := range d.Panics {
 		o.Failf("walk-panic|"+accessorOf(p), "accessor panicked on a module the loader returned: %s", p)
 	}
+	// the first thing any reader does with a leaf of the module: turn a text into a value of its type
+	var leaves func(h meta.HasDataDefinitions, depth int)
+	seen := map[meta.Definition]bool{}
+	leaves = func(h meta.HasDataDefinitions, depth int) {
+		if depth > 6 {
+			return
+		}
+		for _, def := range h.DataDefinitions() {
+			if seen[def] {
+				continue
+			}
+			seen[def] = true
+			if l, ok := def.(meta.Leafable); ok && l.Type() != nil {
+				if o.Guard("NewValue("+def.Ident()+")", func() { node.NewValue(l.Type(), "1") }) {
+					return
+				}
+			}
+			if ch, ok := def.(*meta.Choice); ok {
+				for _, cs := range ch.Cases() {
+					leaves(cs, depth+1)
+				}
+			} else if sub, ok := def.(meta.HasDataDefinitions); ok {
+				leaves(sub, depth+1)
+			}
+		}
+	}
+	leaves(m, 0)
 }
 
 func accessorOf(p string) string {
